@@ -162,6 +162,10 @@ func (f *Frame) callStatic(fn *ssa.Function, args, free []*Value, c *ssa.CallCom
 	name := e.qual(fn)
 	if f.top && !f.dry && f.fc != nil && len(f.fc.Asserts) > 0 {
 		f.siteAsserts(shortName(name), pos, args...)
+		// `assert before.<Receiver>.<Method>:` selects the calls of one receiver type ("metrics.(*Store).Add" -> "Store.Add")
+		if q := recvMethod(name); q != "" {
+			f.siteAsserts(q, pos, args...)
+		}
 	}
 	if r, ok := f.stdBuiltin(name, fn, args, c, pos); ok {
 		return r
@@ -652,6 +656,22 @@ func fieldOfFuncValue(v ssa.Value) string {
 		if st, ok := x.X.Type().Underlying().(*types.Struct); ok {
 			return st.Field(x.Field).Name()
 		}
+	}
+	return ""
+}
+
+// recvMethod: "pkg.(*T).M" or "pkg.T.M" -> "T.M"; "" for plain functions.
+func recvMethod(name string) string {
+	m := shortName(name)
+	rest := strings.TrimSuffix(name, "."+m)
+	if strings.HasSuffix(rest, ")") {
+		if i := strings.LastIndex(rest, "(*"); i >= 0 {
+			return rest[i+2:len(rest)-1] + "." + m
+		}
+		return ""
+	}
+	if i := strings.LastIndex(rest, "."); i >= 0 && i+1 < len(rest) && rest[i+1] >= 'A' && rest[i+1] <= 'Z' {
+		return rest[i+1:] + "." + m
 	}
 	return ""
 }
